@@ -30,14 +30,27 @@ def run_check(prop, tier, wt, out):
     t = time.time()
     rc, o = sh('./check %s %s' % (prop, tier), cwd=VERIF, env=env)
     viol = [l for l in o.splitlines() if l.startswith('VIOLATION')]
-    first = ''
     lines = o.splitlines()
-    for i, l in enumerate(lines):
-        if l.startswith('VIOLATION') and i > 0:
-            first = lines[i - 1].strip()[:400]
-            break
-    return {'tier': tier, 'exit': rc, 'violations': len(viol), 'first': first, 'wall_s': round(time.time() - t, 1),
-            'harness_errors': [l for l in lines if l.startswith('HARNESS-ERROR')][:3]}
+    msgs = [lines[i - 1].strip()[:400] for i, l in enumerate(lines) if l.startswith('VIOLATION') and i > 0]
+    return {'tier': tier, 'exit': rc, 'violations': len(viol), 'first': msgs[0] if msgs else '', 'wall_s': round(time.time() - t, 1),
+            'harness_errors': [l for l in lines if l.startswith('HARNESS-ERROR')][:3], '_msgs': msgs}
+
+
+def against_base(r, clean):
+    """When the change is verified on an OLDER tree (--base), that tree may itself fail the current checks (defects repaired
+    since): only violations the unpatched base does not show count as detection of the change."""
+    msgs = r.pop('_msgs', [])
+    if clean is not None and clean.get('exit') == 1:
+        specific = [m for m in msgs if m not in clean.get('_msgs', [])]
+        r['base_tree_itself_fails'] = True
+        r['violations_not_on_base'] = len(specific)
+        if not specific:
+            r['exit'] = 0 if r['exit'] == 1 else r['exit']
+            r['violations'] = 0
+            r['first'] = ''
+        else:
+            r['first'] = specific[0]
+    return r
 
 
 def main(argv):
@@ -64,6 +77,11 @@ def main(argv):
     try:
         rc0, o0 = sh('%s %s' % (PY, os.path.abspath(demo)), cwd=wt)
         meta['demo_clean_exit'] = rc0
+        clean = {}
+        if base != 'HEAD':
+            pids = [prop] + [pid for a in argv if a.startswith('--also=') for pid in a[len('--also='):].split(',')]
+            for pid in pids:
+                clean[pid] = run_check(pid, 'quick', wt, out)
         rc, o = sh('git apply %s' % os.path.abspath(patch), cwd=wt)
         if rc:
             # the library has moved on since the change was written: merge it onto the current head
@@ -85,16 +103,16 @@ def main(argv):
         meta['demo_patched_exit'] = rc1
         meta['demo_patched_output'] = o1.strip()[-600:]
         meta['valid'] = bool(meta['tests_pass'] and rc0 == 0 and rc1 != 0)
-        res = [run_check(prop, 'quick', wt, out)]
+        res = [against_base(run_check(prop, 'quick', wt, out), clean.get(prop))]
         if (res[0]['exit'] == 0 and '--no-thorough' not in argv) or force_thorough:
-            res.append(run_check(prop, 'thorough', wt, out))
+            res.append(against_base(run_check(prop, 'thorough', wt, out), None))
         meta['checks'] = {prop: res}
         meta['detected'] = any(r['exit'] == 1 and r['violations'] for r in res)
         meta['detected_by'] = [prop] if meta['detected'] else []
         for a in argv:
             if a.startswith('--also='):
                 for pid in a[len('--also='):].split(','):
-                    r = run_check(pid, 'quick', wt, out)
+                    r = against_base(run_check(pid, 'quick', wt, out), clean.get(pid))
                     meta['checks'][pid] = [r]
                     if r['exit'] == 1 and r['violations']:
                         meta['detected_by'].append(pid)
@@ -103,7 +121,7 @@ def main(argv):
             for c in man['checks']:
                 pid = c['property_id']
                 if pid != prop:
-                    r = run_check(pid, 'quick', wt, out)
+                    r = against_base(run_check(pid, 'quick', wt, out), None)
                     meta['checks'][pid] = [r]
     finally:
         sh('git -C /repo worktree remove --force %s' % wt)
